@@ -170,6 +170,7 @@ type CStmt struct {
 	Mut  bool   `json:"mut"`  // the statement writes, locks rows, takes a lock or draws from a sequence
 	Err  string `json:"err"`  // "" | SQLSTATE | fault:<kind>
 	Call string `json:"call"` // store call it belongs to ("" = none)
+	CI   int    `json:"ci"`   // 1-based position of that call in the trace (0 = none)
 	S    int    `json:"s"`    // session
 }
 
@@ -177,17 +178,18 @@ type SQLFaultRun struct {
 	Fault SFault `json:"fault"`
 	Fired bool   `json:"fired"`
 	// Hit: kind and store call of the statement the fault hit
-	HitK    string       `json:"hitK"`
-	HitCall string       `json:"hitCall"`
-	Resp    wlctrl.Resp  `json:"resp"`
-	Delta   wlctrl.Delta `json:"delta"` // builder-ctrl's snapshot delta (empty = unchanged)
+	HitK    string `json:"hitK"`
+	HitCall string `json:"hitCall"`
+	// HitCallIdx: 1-based position of that store call in the operation's call trace (0 = none)
+	HitCallIdx int `json:"hitCallIdx"`
+	// Out: everything builder-ctrl's workloads observe of one op (response, call trace, snapshot delta, sequences)
+	Out wlctrl.OpOut `json:"out"`
 	// DumpBefore / DumpAfter: SHA-256 of LeanPG's canonical dump of EVERY bucket table of the ledger
 	DumpBefore string   `json:"dumpBefore"`
 	DumpAfter  string   `json:"dumpAfter"`
 	Changed    []string `json:"changed"` // tables whose dump differs
 	Events     []string `json:"events"`
 	Stmts      []CStmt  `json:"stmts"`
-	Trace      []string `json:"trace"`
 	// Vols: accounts_volumes after the run (for retried runs: must equal the fault-free run's)
 	Vols []memstore.CVol `json:"vols,omitempty"`
 	// OpenTx: sessions with a BEGIN that was not followed by COMMIT / ROLLBACK
@@ -244,7 +246,7 @@ func (b *Backend) opStmts() ([]CStmt, []pgfake.Stmt) {
 		c := CStmt{H: s.Handle, K: k, Mut: mut, Err: s.Err, S: s.Session}
 		for j, r := range b.callRanges {
 			if lo+i >= r[0] && lo+i < r[1] && j < len(trace) {
-				c.Call = trace[j].M
+				c.Call, c.CI = trace[j].M, j+1
 			}
 		}
 		ret = append(ret, c)
@@ -337,11 +339,11 @@ func RunSQLFaults(in *SQLFaultIn) (SQLFaultOut, error) {
 		b.Srv.ClearFaults()
 		b.Quiesce()
 		stmts, raw := b.opStmts()
-		run := SQLFaultRun{Fault: f, Resp: o.Resp, Delta: o.Delta, Stmts: stmts, Trace: o.Trace, Events: cur.lis.take()}
+		run := SQLFaultRun{Fault: f, Out: o, Stmts: stmts, Events: cur.lis.take()}
 		for i, s := range raw {
 			if strings.HasPrefix(s.Err, "fault:") {
 				run.Fired = true
-				run.HitK, run.HitCall = stmts[i].K, stmts[i].Call
+				run.HitK, run.HitCall, run.HitCallIdx = stmts[i].K, stmts[i].Call, stmts[i].CI
 				// the modelled session of a failed COMMIT / dropped connection is ended, as a server would do
 				b.RollbackSession(s.Session)
 			}
@@ -356,6 +358,8 @@ func RunSQLFaults(in *SQLFaultIn) (SQLFaultOut, error) {
 		if len(run.Changed) > 0 {
 			run.Vols = SnapOfDump(after).Vols
 			cur = nil
+		} else {
+			cur.restoreSequences()
 		}
 		out.Runs = append(out.Runs, run)
 	}
@@ -365,27 +369,11 @@ func RunSQLFaults(in *SQLFaultIn) (SQLFaultOut, error) {
 func init() {
 	gen.Register("sqlctrlfault", func(c *gen.Ctx) error {
 		defer closeBackend()
-		var ins []json.RawMessage
-		if c.Replay != "" {
-			var err error
-			if ins, err = c.ReplayInputs("ctrlfault"); err != nil {
-				return err
-			}
+		ins, err := inputs(c, "ctrlfault", "ctrlfault", 16)
+		if err != nil {
+			return err
 		}
-		n := c.N
-		if c.Replay != "" {
-			n = len(ins)
-		}
-		for i := 0; i < n; i++ {
-			var raw json.RawMessage
-			if c.Replay != "" {
-				raw = ins[i]
-			} else {
-				var err error
-				if raw, err = drawFrom(c, "ctrlfault"); err != nil {
-					return err
-				}
-			}
+		for _, raw := range ins {
 			var in wlctrl.FaultIn
 			if err := json.Unmarshal(raw, &in); err != nil {
 				return err
@@ -403,28 +391,17 @@ func init() {
 	})
 	gen.Register("sqlfault", func(c *gen.Ctx) error {
 		defer closeBackend()
-		var ins []json.RawMessage
-		if c.Replay != "" {
-			var err error
-			if ins, err = c.ReplayInputs("sqlfault"); err != nil {
-				return err
-			}
+		ins, err := inputs(c, "sqlfault", "ctrlfault", 16)
+		if err != nil {
+			return err
 		}
-		n := c.N
-		if c.Replay != "" {
-			n = len(ins)
-		}
-		for i := 0; i < n; i++ {
+		for _, raw := range ins {
 			var in SQLFaultIn
 			if c.Replay != "" {
-				if err := json.Unmarshal(ins[i], &in); err != nil {
+				if err := json.Unmarshal(raw, &in); err != nil {
 					return err
 				}
 			} else {
-				raw, err := drawFrom(c, "ctrlfault")
-				if err != nil {
-					return err
-				}
 				var fin wlctrl.FaultIn
 				if err := json.Unmarshal(raw, &fin); err != nil {
 					return err
